@@ -82,6 +82,11 @@ def inert(n):
         return inert(n.value) and inert(n.slice)
     if isinstance(n, ast.Tuple):
         return all(inert(e) for e in n.elts)
+    if isinstance(n, (ast.BinOp,)):
+        return inert(n.left) and inert(n.right)
+    if isinstance(n, ast.Call) and isinstance(n.func, ast.Name) and n.func.id in ("len", "bool", "int", "min", "max") \
+            and not n.keywords:
+        return all(inert(a) for a in n.args)      # pure builtins on inert arguments
     return False
 
 
